@@ -156,7 +156,8 @@ _ENGINE = None
 
 
 def _work(args):
-    make_engine, eparams, start, stop, sample_every = args
+    make_engine, eparams, start, stop, sample_every = args[:5]
+    stop_at = args[5] if len(args) > 5 else None
     global _ENGINE
     faulthandler.enable()
     faulthandler.dump_traceback_later(600, exit=True)
@@ -167,6 +168,11 @@ def _work(args):
         agg = Aggregate()
         isolate = getattr(eng, "isolate_runs", False)
         for i in range(start, stop):
+            if stop_at is not None and time.time() > stop_at:
+                # wall budget used up: the rest of the chunk is not executed (which indices ran is reported
+                # in the evidence; run i itself never depends on the budget)
+                agg.counters["chunks_cut_by_budget"] = agg.counters.get("chunks_cut_by_budget", 0) + 1
+                break
             try:
                 out = _isolated(eng, i) if isolate else eng.run_one(i)
             except HarnessError as e:
@@ -230,12 +236,15 @@ def run_batch(make_engine, eparams, n_runs, chunk, budget_s, first_index=0, njob
     Returns (Aggregate, info). Run i is the same whatever the budget or the worker count."""
     njobs = njobs or jobs()
     t0 = time.time()
+    # never plan beyond the instant by which the registered command must have printed its verdict
+    budget_s = min(budget_s, max(5.0, hard_deadline() - t0 - 150.0))
+    stop_at = t0 + budget_s + 5.0
     tasks = []
     i = first_index
     end = first_index + n_runs
     while i < end:
         j = min(end, i + chunk)
-        tasks.append((make_engine, eparams, i, j, max(1, n_runs // 4)))
+        tasks.append((make_engine, eparams, i, j, max(1, n_runs // 4), stop_at))
         i = j
     total = Aggregate()
     info = {"planned_runs": n_runs, "budget_cutoff": False, "workers": njobs}
@@ -245,6 +254,8 @@ def run_batch(make_engine, eparams, n_runs, chunk, budget_s, first_index=0, njob
                 info["budget_cutoff"] = True
                 break
             total.merge(_work(t))
+        if total.counters.get("chunks_cut_by_budget"):
+            info["budget_cutoff"] = True
         return total, info
     ctx = multiprocessing.get_context("fork")
     with concurrent.futures.ProcessPoolExecutor(max_workers=njobs, mp_context=ctx) as ex:
@@ -267,6 +278,8 @@ def run_batch(make_engine, eparams, n_runs, chunk, budget_s, first_index=0, njob
                     total.merge(f.result())
         except concurrent.futures.process.BrokenProcessPool as e:
             raise HarnessError("worker process died: %s" % (e,))
+    if total.counters.get("chunks_cut_by_budget"):
+        info["budget_cutoff"] = True
     return total, info
 
 
